@@ -26,6 +26,26 @@ CLAIMS["C09"] = (
     "library loops) are not under contract.",
     "DESIGN.md section 4, C09")
 
+CLAIMS["C01"] = (
+    "Routing soundness as contracts: for every rule, key order and operator, the comparison-routing closure (=, <>, <, <=, >, >=), "
+    "adjustShardIndex, BETWEEN / NOT BETWEEN routing, the list kernel (makeList, interList, unionList with loop invariants: sortedness, "
+    "soundness, completeness), RouteResult.Inter/Union and the AND/OR merge return lists that contain the table of every key satisfying the "
+    "condition (forall over all keys, unbounded). The interface contracts they rely on (monotone placement, EqualStart true only for the "
+    "smallest key of a table) are discharged for NumRangeShard (with a monotonicity lemma) and for the calendar shards' EqualStart.",
+    "Trusted/assumed: go/ssa, govc, solvers; Rule getters as deterministic functions (immutable rule, C07); axioms subTablesWF, rangeMonotone "
+    "for calendar shards (chronological order vs strconv.Atoi), kltAsym, placeBounded; util.GetValueExprResult as uninterpreted valueOf. "
+    "NOT under contract: the AST visitor that dispatches to these functions (handleComparisonExpr, handleBinaryOperationExpr*, decorators), "
+    "IN / NOT IN routing (getPatternInRouteResult), alias resolution.",
+    "DESIGN.md section 4, C01")
+CLAIMS["C21"] = (
+    "isSQLNotAllowedByUser rejects every mutating statement kind (INSERT, REPLACE, UPDATE, DELETE, DDL; one obligation per kind) for a user "
+    "without write permission; checkSQLAllowed returns an error whenever it does; in doQuery every call other than the check itself carries "
+    "the obligation that the statement kind is allowed for the user (dominance of the check over planning and backend access).",
+    "Trusted: parser.Preview as an uninterpreted classification of the text (LOAD DATA is classified unknown: recorded finding), "
+    "RequestContext.SetStmtType has no effect on session state, session invariant knownUser; that handleQuery/doMultiStmts/handleStmtExecute "
+    "reach the backends only through doQuery is read from the call structure, not mechanised.",
+    "DESIGN.md section 4, C21")
+
 NA = {
 }
 
